@@ -584,7 +584,16 @@ def okMeansAccepted (ev : List Ev) : Bool :=
        | _ => true)
     | _ => true
 
-def ok (t : Trace) : Bool := bound t && okMeansAccepted t.ev
+/-- "a send waits, it is never refused": Err(Send) is reported only once the actor's loop is over (on_stop has
+    ended, the task has failed or has been joined) - never by a running actor, whatever the fill level of its
+    mailbox and whatever else is pending (theorem: `C09.send_error_only_after_end`) -/
+def failOnlyWhenClosed (ev : List Ev) : Bool :=
+  (List.range ev.length).all fun n =>
+    match ev[n]? with
+    | some (.ret _ .send _) => anyBefore closedSign ev n
+    | _ => true
+
+def ok (t : Trace) : Bool := bound t && okMeansAccepted t.ev && failOnlyWhenClosed t.ev
 end C09
 
 /-! ### C10 — timeouts are exact -/
